@@ -73,6 +73,8 @@ def gen_mov(ctx, count, sizes=("b", "w", "l"), modes=MOV_MODES, bc="zero", allow
                     forbid = (dreg & 7,)
                 T, areg, av, x = isa.place_mem(ctx, size, pm, pc, length, areg_forbid=forbid, wrap_bias=wrap_bias)
                 er[areg] = av & 0xffffffff
+                if mode == "inc" and allow_overlap and r.random() < 0.7:
+                    dreg = areg if size == "l" else areg + r.choice([0, 8])
                 code = isa.enc_mov_mem(size, load, mode, areg, dreg, x)
             if load:
                 mem[T] = [(val >> (8 * (n - 1 - i))) & 0xff for i in range(n)]
